@@ -1583,6 +1583,12 @@ func Program(rt *rapid.T, p Profile) (*oracle.Program, *Meta) {
 	}
 	// constants (an iota block) and package-level variables
 	top.WriteString("const (\n\tCA = iota\n\tCB\n\tCC\n)\n\nconst limit = 1000\n\n")
+	pairs := rx.Chance(rt, "constpairs", 1, 2)
+	if pairs {
+		// specs with several names: iota counts specs, and a spec without values repeats the whole previous list
+		g.meta.feat("constpairs")
+		top.WriteString("const (\n\tPA, PB = iota, iota * 10\n\tPC, PD\n\tPE, PF\n\tPG, PH, PI = iota + 1, \"s\", iota << 1\n\tPJ, PK, PL\n)\n\n")
+	}
 	top.WriteString("var bi, bi8, bu8, bu32, bf, bs, bb = 6, int8(-5), uint8(250), uint32(4000000001), 2.5, \"base\", true\n\n")
 	for k, n := range baseVar {
 		g.globals = append(g.globals, &Var{Name: n, T: &Ty{K: k}, Global: true})
@@ -1665,6 +1671,9 @@ func Program(rt *rapid.T, p Profile) (*oracle.Program, *Meta) {
 	g.depth = 0
 	g.curFn = nil
 	g.line("fmt.Println(\"start\", CA, CB, CC, limit)")
+	if pairs {
+		g.line("fmt.Println(\"pairs\", PA, PB, PC, PD, PE, PF, PG, PH, PI, PJ, PK, PL)")
+	}
 	if noteLog {
 		g.line("fmt.Println(\"notes\", initLog)")
 	}
